@@ -181,6 +181,15 @@ def run(prop, tier, seed):
         if amism and not abad and not bad:
             i = amism[0]
             run_.violation("no-input", "correspondence L1 APPLY broken on %d cases" % len(amism), dict(broken="correspondence L1 apply_patch", case=ac[i], impl=ai[i], model=am[i]))
+    if prop == "C02":
+        # under -D as well every original line (context lines inside placed hunks included) comes out once, with its own bytes
+        import l1props
+        db, dm = l1props.define_drifted(run_, rng, na)
+        for i, d, rep in db[:10]:
+            run_.violation("concrete", d + " (an original line was lost, duplicated or rewritten from the patch text)", rep)
+        extra_mism += len(dm)
+        if dm and not db and not bad:
+            run_.violation("no-input", "correspondence L1 APPLY -D broken on %d cases" % len(dm), dict(dm[0][2], broken="correspondence L1 apply_patch -D"))
     rc, ri, rm, rmism, rbad = applyc.run_family_plain(run_, applyc.family_reapply(rng, na), "reapply")
     for i, d in rbad[:10]:
         run_.violation("concrete", d, dict(case=rc[i], impl=ri[i], model=rm[i]))
